@@ -171,18 +171,26 @@ ALPHABET = [(33, None, d) for d in (1004, 11106, 1001, 5002, 7002, 12101, 10004,
 def run_strings(_):
     p = Partial()
     fields = [([10], 1), ([208002, 10, 208000], 2), ([205003], 3), ([1011], 9), ([208004, 1011, 208000], 4)]
+
+    def expected(v, nb):
+        return None if v is None else v[:nb] + b' ' * max(0, nb - len(v))
+
     for descs, nb in fields:
         for n in list(range(0, nb + 3)) + [None]:
             for ch in (b'a', b' ', b'\xe9'):
                 if n is None and ch != b'a':
                     continue
                 v = None if n is None else (ch * n)
-                for comp in (False, True):
+                # compressed: the other subsets of the column are S-choices -- full width, shorter than the field (so that
+                # EVERY supplied string is short), empty, missing, equal to v (a constant column), and three subsets
+                companions = [None] + [[b'Z' * nb], [b'Z' * max(0, nb - 1)], [b''], [None], [v], [b'Z' * max(0, nb - 1), b'Y']]
+                for ci, comp_vals in enumerate(companions):
+                    comp = comp_vals is not None
                     p.n['exec'] += 1
-                    vals = [[v], [b'Z' * nb]] if comp else [[v]]
-                    res = encode_decode(33, None, descs, vals, comp)
-                    case = {'descs': descs, 'value': v, 'compressed': comp}
-                    p.outcome((nb, n if n is None else min(n, nb + 1) - nb, comp, res[0]))
+                    col = [v] + (comp_vals or [])
+                    res = encode_decode(33, None, descs, [[x] for x in col], comp)
+                    case = {'descs': descs, 'value': v, 'compressed': comp, 'column': col}
+                    p.outcome((nb, n if n is None else min(n, nb + 1) - nb, ci, res[0]))
                     if res[0] == 'error':
                         p.hist['refused:' + res[1]] += 1
                         if n is None or n <= nb:
@@ -191,14 +199,16 @@ def run_strings(_):
                     if res[0] == 'undecodable':
                         p.violation('string-undecodable', case, res[1])
                         continue
-                    d = res[1][0][0]
-                    if v is None:
-                        ok = d is None or d == b'\xff' * nb
-                    else:
-                        ok = d == (v[:nb] + b' ' * max(0, nb - len(v)))
-                    if not ok:
-                        p.violation('string-altered|%s' % ('comp' if comp else 'uncomp'), case,
-                                    '%r in a %d-byte field reads back as %r' % (v, nb, d))
+                    for k, x in enumerate(col):
+                        d = res[1][k][0]
+                        if x is None:
+                            ok = d is None or d == b'\xff' * nb
+                        else:
+                            ok = d == expected(x, nb)
+                        if not ok:
+                            p.violation('string-altered|%s' % ('comp' if comp else 'uncomp'), case,
+                                        'subset %d: %r in a %d-byte field reads back as %r' % (k, x, nb, d))
+                            break
     return p
 
 
@@ -310,7 +320,7 @@ def replay(part, case):
     if part == 'strings':
         p = run_strings(None)
         return [{'sig': v['sig'], 'detail': v['detail']} for v in p.viol
-                if v['case']['descs'] == case['descs'] and v['case']['value'] == case['value'] and v['case']['compressed'] == case['compressed']]
+                if v['case']['descs'] == case['descs'] and v['case']['column'] == case['column'] and v['case']['compressed'] == case['compressed']]
     if part == 'fix-corpus':
         from mc.gen.corpus import TESTS, scan
         import os
@@ -344,7 +354,7 @@ def main(tier, seed):
                  extra={'note': 'quick = 14 alphabet elements + 1/8 slice (VERIF_SEED) of all definitions; thorough = all'})
     p = run_strings(None)
     p.n['nodes'], p.n['edges'] = p.n['exec'] + 1, p.n['exec']
-    rep.add_part('strings', p, bounds={'fields': 5, 'lengths': '0..w+2, None', 'characters': 3})
+    rep.add_part('strings', p, bounds={'fields': 5, 'lengths': '0..w+2, None', 'characters': 3, 'columns': 'uncompressed; compressed with the other subsets full width / short / empty / missing / equal / two others'})
     plan = [('fix-u1', dict(k=1, c=1, nested=True), dict(nsub=1, compressed=False), 1),
             ('fix-c2', dict(k=1, c=1, nested=True), dict(nsub=2, compressed=True), 1)]
     if tier == 'thorough':
